@@ -96,7 +96,7 @@ def r41(ctx, wr):
                    wr.loc(s))
     stats = [c for c in ast.walk(f) if isinstance(c, ast.Call) and callee(c) == 'parquet_thrift.Statistics']
     ctx.floor('R4.1', 'Statistics constructions', len(stats), 2)
-    for i, c in enumerate(sorted(stats, key=lambda c: c.lineno)):
+    for i, c in enumerate(sorted(stats, key=lambda c: (c.lineno, c.col_offset))):
         ctx.ob('R4.1', 'writer.write_column:Statistics#%d-null_count-is-the-chunk-tally' % (i + 1),
                norm(kwarg(c, 'null_count')) == 'global_num_nulls', norm(c), wr.loc(c))
     init = [s for s in f.body if isinstance(s, ast.Assign) and norm(s) == 'global_num_nulls = 0']
